@@ -1,4 +1,22 @@
+//! webx — bounded-exhaustive checks through real `actix_web::test` services.
+//!
+//! * `webx C11 --tier quick|thorough [--replay f]` — request isolation under pooled `HttpRequest`s
+//! * `webx C16 --tier quick|thorough [--replay f]` — actix-files: traversal containment + ranges
+
+mod c11;
+mod c11conn;
+mod c16;
+mod util;
+
 fn main() {
-    eprintln!("MACHINERY: engine webx is not built yet");
-    std::process::exit(2);
+    let args = mc_core::cli::parse();
+    let code = match args.property.as_str() {
+        "C11" => c11::main(&args),
+        "C16" => c16::main(&args),
+        other => {
+            eprintln!("MACHINERY: webx does not serve property '{other}'");
+            2
+        }
+    };
+    std::process::exit(code);
 }
